@@ -74,6 +74,11 @@ var assets = map[string]*Asset{
 		"acts/deploy/action.yml": "name: deploy\ndescription: no inputs at all\nruns:\n  using: node20\n  main: index.js\n",
 		"acts/deploy/index.js":   "\n",
 	}},
+	// two reusable workflows whose paths differ only in letter case, with different interfaces
+	"wf-case": {Name: "wf-case", Files: map[string]string{
+		".github/workflows/reuse-Case.yml": "on:\n  workflow_call:\n    inputs:\n      token:\n        type: string\n        required: true\njobs:\n  j:\n    runs-on: ubuntu-latest\n    steps:\n      - run: echo\n",
+		".github/workflows/reuse-case.yml": "on:\n  workflow_call:\n    inputs:\n      level:\n        type: number\n    secrets:\n      key:\n        required: true\njobs:\n  j:\n    runs-on: ubuntu-latest\n    steps:\n      - run: echo\n",
+	}},
 	// Interface shapes where the in-memory AST and the re-parsed file could disagree.
 	"wf-nulldefault": {Name: "wf-nulldefault", Files: map[string]string{
 		".github/workflows/reuse-nulldefault.yml": "on:\n  workflow_call:\n    inputs:\n      x:\n        type: number\n        required: true\n        default:\n      y:\n        type: string\n        required: true\n      Upper:\n        type: boolean\n        required: true\n        default: ''\n    secrets:\n      S1:\n        required: true\njobs:\n  j:\n    runs-on: ubuntu-latest\n    steps:\n      - run: echo\n",
@@ -136,6 +141,10 @@ var tieWorkflows = func() []TieWorkflow {
 	// them reports the action's defects is decided by the job visiting order
 	out = append(out, TieWorkflow{Assets: []string{"act-bad-noname"},
 		Text: "on: push\njobs: {zeta: {runs-on: ubuntu-latest, steps: [{uses: ./act-bad-noname}]}, alpha: {runs-on: ubuntu-latest, steps: [{uses: ./act-bad-noname}]}}\n"})
+	// three jobs in block style that all use the same defective local action, the first needing the last:
+	// the first job in the file reports the action's defects, whatever the jobs need
+	out = append(out, TieWorkflow{Assets: []string{"act-bad-noname"},
+		Text: "on: push\njobs:\n  first:\n    needs: [third]\n    runs-on: ubuntu-latest\n    steps:\n      - uses: ./act-bad-noname\n  second:\n    runs-on: ubuntu-latest\n    steps:\n      - uses: ./act-bad-noname\n  third:\n    runs-on: ubuntu-latest\n    steps:\n      - uses: ./act-bad-noname\n  fourth:\n    needs: [first, second]\n    runs-on: ubuntu-latest\n    steps:\n      - uses: ./act-bad-noname\n"})
 	return out
 }()
 
@@ -187,6 +196,8 @@ var frags = []*Frag{
 	// a matrix without rows whose include mixes an expression with literal combinations, and a job that reads github.event
 	{Name: "matrix-include-expr-then-literal", Jobs: []FragJob{{ID: "{P}mie", Body: "    strategy:\n      matrix:\n        include:\n          - ${{ github.event }}\n          - release: x\n            action: y\n    runs-on: ubuntu-latest\n    steps:\n      - run: echo ${{ matrix.release }}\n"}}},
 	{Name: "github-event-release", Jobs: []FragJob{{ID: "{P}ger", Body: "    runs-on: ubuntu-latest\n    steps:\n      - run: echo \"${{ github.event.release.tag_name }} ${{ github.event.action }} ${{ github.event.release.nope.deeper }}\"\n"}}},
+	{Name: "reusable-workflows-differing-in-case-1", Tie: true, Assets: []string{"wf-case"}, Jobs: []FragJob{{ID: "{P}wc1", Body: "    uses: ./.github/workflows/reuse-Case.yml\n    with:\n      level: 3\n"}}},
+	{Name: "reusable-workflows-differing-in-case-2", Tie: true, Assets: []string{"wf-case"}, Jobs: []FragJob{{ID: "{P}wc2", Body: "    uses: ./.github/workflows/reuse-case.yml\n    with:\n      token: t\n"}}},
 	{Name: "matrix-objfilter", Jobs: []FragJob{{ID: "{P}mof", Body: "    strategy:\n      matrix:\n        include:\n          - name: first\n            targets: [{os: linux, arch: x64}, {os: darwin, arch: arm64}]\n            nums: [1, 2]\n    runs-on: ubuntu-latest\n    steps:\n      - run: echo \"${{ join(matrix.targets.*.os, ',') }}\"\n      - run: echo \"${{ join(matrix.targets.*.arch, ',') }}\"\n      - run: echo \"${{ matrix.targets.*.nope }} ${{ matrix.nums.*.x }}\"\n      - run: echo \"${{ matrix.targets[0].os }} ${{ toJSON(matrix.targets) }}\"\n"}}},
 	{Name: "no-matrix-ref", Jobs: []FragJob{{ID: "{P}nomx", Body: "    runs-on: ubuntu-latest\n    steps:\n      - run: echo ${{ matrix.foo }}\n"}}},
 	{Name: "uses-job-with-matrix", Assets: []string{"wf-opt"}, Clean: true, Jobs: []FragJob{{ID: "{P}call", Body: "    strategy:\n      matrix:\n        foo: [1, 2]\n    uses: ./.github/workflows/reuse-opt.yml\n    with:\n      note: n${{ matrix.foo }}\n"}}},
